@@ -1408,6 +1408,11 @@ def part_e(ctx, stats):
         ([("assign", "k", "0"), ("while", "k < 2", [("if", [("k > 0", [("assign", "b", "z"), ("write", "b")])], None), ("assign", "z", "2.5"),
                                                     ("assign", "k", "k + 1")])], [], 0),
         ([("assign", "a", "1"), ("assign", "a", "2.5"), ("write", "a")], [], 0),
+        # tuple assignments (the demo of C02_tuple_nonvacuous with a real loop) and narrower-into-wider stores
+        ([("tassign", ["a", "b"], ["1", "2.5"]), ("write", "a"), ("write", "b"), ("tassign", ["a", "x"], ["a + 1", "b * 2"]), ("write", "a"), ("write", "x"),
+          ("assign", "k", "0"), ("while", "k < 1", [("tassign", ["b", "x"], ["x", "b"]), ("write", "b"), ("write", "x"), ("assign", "k", "k + 1")])], [], 0),
+        ([("assign", "a", "2.5"), ("write", "a"), ("assign", "a", "1"), ("write", "a"), ("assign", "a", "3.5"), ("write", "a"), ("assign", "b", "3"),
+          ("if", [("b > 2", [("assign", "a", "b"), ("write", "a")])], None), ("assign", "a", "0.5"), ("assign", "x", "a * 2"), ("write", "x")], [], 0),
         ([("if", [("1 > 2", [("assign", "x", "1")])], [("assign", "x", "2.5")]), ("write", "x")], [], 0),
     ]
     for pre, main, passes in fixed:
